@@ -340,7 +340,7 @@ example (s : Sess) :
 position is set (instance of `C07_position_step`) -/
 example (hasBook : State → Bool) (s : Sess) (hs : s.searching = true) :
     step hasBook s "position fen 4k3/8/8/8/8/8/4P3/4K3 w - - 0 1   moves e2e4\te8d7" =
-      some ({ pos := kpk2, searching := false, artifact := true }, [Out.joinRunning], false) := by
+      some ({ pos := kpk2, searching := false, artifact := s.searchOk, searchOk := s.searchOk }, [Out.joinRunning], false) := by
   have htok : splitAsciiWs "position fen 4k3/8/8/8/8/8/4P3/4K3 w - - 0 1   moves e2e4\te8d7" =
       "position" :: ("fen" :: kpkFen ++ "moves" :: ["e2e4", "e8d7"]) := by decide
   have hp := C07_position_fen (joinKeep s).1 kpkFen (by decide) kpk kpk_parse kpk_legal.1 kpk_legal.2
